@@ -4,6 +4,7 @@ import (
 	"fmt"
 	"go/constant"
 	"go/token"
+	"go/types"
 	"sort"
 	"strings"
 
@@ -169,4 +170,59 @@ func CanonCmp(c Cmp, holds bool) (string, bool) {
 		l.C = 0 // normalise -0
 	}
 	return l.String() + " " + op.String() + " 0", true
+}
+
+// LinearMayWrap reports whether evaluating v (as traversed by Linear) involves
+// integer arithmetic that can overflow for large operands: a multiplication or
+// left shift of a non-constant integer by a constant of magnitude > 1, or the
+// sum/difference of two non-constant integers. The rational normal form is
+// only equivalent to the Go expression when this is false.
+func LinearMayWrap(v ssa.Value) bool {
+	return mayWrap(v, 0)
+}
+
+func mayWrap(v ssa.Value, d int) bool {
+	if d > 10 {
+		return false
+	}
+	v = StripConv(v)
+	bo, ok := v.(*ssa.BinOp)
+	if !ok {
+		return false
+	}
+	isInt := false
+	if b, ok := bo.Type().Underlying().(*types.Basic); ok && b.Info()&types.IsInteger != 0 {
+		isInt = true
+	}
+	_, xc := StripConv(bo.X).(*ssa.Const)
+	_, yc := StripConv(bo.Y).(*ssa.Const)
+	if isInt {
+		switch bo.Op {
+		case token.MUL:
+			if xc != yc {
+				k, _ := ConstInt(bo.X)
+				if yc {
+					k, _ = ConstInt(bo.Y)
+				}
+				if k > 1 || k < -1 {
+					return true
+				}
+			} else if !xc {
+				return true
+			}
+		case token.SHL:
+			if !xc {
+				return true
+			}
+		case token.ADD, token.SUB:
+			if !xc && !yc {
+				return true
+			}
+		}
+	}
+	switch bo.Op {
+	case token.ADD, token.SUB, token.MUL, token.QUO:
+		return mayWrap(bo.X, d+1) || mayWrap(bo.Y, d+1)
+	}
+	return false
 }
